@@ -485,6 +485,21 @@ func (w *World) Shutdown() error {
 	return err
 }
 
+// Closed tells the world that the server has been closed by the caller (Server.Close panics when called twice):
+// the client connections and the listener are released, Server.Close is not called again.
+func (w *World) Closed() {
+	if w.Srv == nil {
+		return
+	}
+	for _, s := range w.Sess {
+		_ = s.C.End.Close()
+		s.Dead = true
+	}
+	w.stop()
+	_ = w.Lis.Close()
+	w.Srv = nil
+}
+
 func (w *World) Close() {
 	if w.Srv != nil {
 		_ = w.Shutdown()
